@@ -132,10 +132,23 @@ def rw2(F, R):
         elif eq is None:
             R.bad("RW2", "RW2/Sodg::kid/not-guarded-by-label-equality", b.where(s),
                   "kid(v, a) returns an edge's target without the edge's label being equal to `a`", detail)
+        elif [f for f in facts if f is not eq and mentions(f, lambda z: strip_sites(z) == strip_sites(item)) and
+              not (f[0] == "in" and strip_load(f[1])[0] == "discr")]:
+            R.bad("RW2", "RW2/Sodg::kid/edge-accepted-under-extra-condition", b.where(s),
+                  "kid(v, a) accepts the edge labelled `a` only under a further condition on the edge: an existing edge can be missed", detail)
         else:
             R.ok("RW2", b.where(s), "kid(v, a) = Some(target of the edge of v whose label == a)", detail)
     for s, e, facts in nones:
         exhausted = any(f[0] == "in" and f[2] == frozenset(["None"]) and is_iter_next(f[1]) for f in facts)
+        # `find(..)` over all edges of the vertex answered None: nothing satisfied the predicate (which the Some side
+        # shows to be the label equality)
+        for f in facts:
+            if f[0] == "in" and f[2] == frozenset(["None"]) and strip_load(f[1])[0] == "discr" and strip_load(strip_load(f[1])[1])[0] == "find":
+                fnd = strip_load(strip_load(f[1])[1])
+                src = iter_source(fnd[1])
+                if src is not None and strip_load(src)[0] == "field" and strip_load(src)[2] == "Vertex::edges" and \
+                        is_param_vertex(strip_load(src)[1], 2) and not iter_adaptors(fnd[1]) and somes:
+                    exhausted = True
         if exhausted:
             R.ok("RW2", b.where(s), "kid() = None only after all edges were compared")
         else:
